@@ -578,7 +578,7 @@ def solve(hyps, goal, timeout_ms=20000, dyadic_syms=None, seed=0, allow_split=Tr
         for cj in cjs:
             terms, axioms = induct.with_unfoldings(list(hyps) + [z3.Not(cj)])
             s = z3.Solver()
-            s.set("timeout", max(2000, timeout_ms // (2 * max(1, min(len(cjs), 4)))))
+            s.set("timeout", max(5000, timeout_ms // 2))      # per conjunct; the first conjunct that fails ends this attempt
             s.set("random_seed", seed)
             s.add(*terms)
             s.add(*axioms)
